@@ -220,9 +220,19 @@ func (m *Machine) isOrderedOrBytes(t types.Type) bool {
 }
 
 func (m *Machine) opaque(e ast.Expr) Value {
-	tv, ok := m.Info.Types[e]
-	if ok && tv.Type != nil {
-		if b, isB := tv.Type.Underlying().(*types.Basic); isB && b.Info()&types.IsBoolean != 0 {
+	var t types.Type
+	if tv, ok := m.Info.Types[e]; ok {
+		t = tv.Type
+	}
+	if id, ok := e.(*ast.Ident); ok && t == nil {
+		if o := m.Info.Defs[id]; o != nil {
+			t = o.Type()
+		} else if o := m.Info.Uses[id]; o != nil {
+			t = o.Type()
+		}
+	}
+	if t != nil {
+		if b, isB := t.Underlying().(*types.Basic); isB && b.Info()&types.IsBoolean != 0 {
 			return m.boolSym(m.symName(e))
 		}
 	}
@@ -499,6 +509,29 @@ func (m *Machine) execStmt(s ast.Stmt) {
 				}
 			}
 			return
+		}
+		// `a, b := f(...)`: each result is an opaque operand named after its variable
+		if len(x.Rhs) == 1 && (x.Tok == token.DEFINE || x.Tok == token.ASSIGN) {
+			if _, isCall := ast.Unparen(x.Rhs[0]).(*ast.CallExpr); isCall {
+				for _, l := range x.Lhs {
+					id, ok := l.(*ast.Ident)
+					if !ok {
+						undecided("assignment to non-local")
+					}
+					if id.Name == "_" {
+						continue
+					}
+					obj := m.Info.Defs[id]
+					if obj == nil {
+						obj = m.Info.Uses[id]
+					}
+					if obj == nil {
+						continue
+					}
+					m.locals[obj] = m.opaque(id)
+				}
+				return
+			}
 		}
 		undecided("tuple assignment")
 	case *ast.ExprStmt:
